@@ -355,7 +355,35 @@ def targets(ctx):
         st.integers(MASK64 - 1000, MASK64),
         st.integers(-(1 << 70), -(1 << 63) - 1),
     )
+    def fuzz_cases():
+        if not ctx.thorough or ctx.shard not in (0, 1):
+            return
+        from .. import fuzz
+
+        if not fuzz.available():
+            ctx.extra["atheris"] = "not installed: campaign skipped (inconclusive)"
+            return
+        yield {"fuzz": "varint", "runs": 1000000, "seed": ctx.seed * 100 + ctx.shard}
+
+    def fuzz_ev(case):
+        from .. import fuzz
+
+        if "crash" in case:
+            return eval_bytes_one(bp)({"b": case["crash"][:12]})
+        execs, crashes, log = fuzz.run_campaign("fuzz_varint.py", case["runs"], case["seed"], [b"\x80\x01", b"\xff" * 10 + b"\x01"], tag=f"varint_{ctx.shard}", max_len=16)
+        fails = []
+        for data in crashes[:5]:
+            sub = eval_bytes_one(bp)({"b": data[:12]})
+            for f in sub.failures:
+                f.case = {"crash": data}
+                fails.append(f)
+            if not sub.failures:
+                fails.append(Failure("fuzz_target_oracle", "fuzz|target_oracle_violation", f"input={data.hex()} log={log[-300:]}", case={"crash": data}))
+        ctx.extra.setdefault("fuzz_campaigns", {})[f"varint[{ctx.shard}]"] = {"executions": execs, "crashes": len(crashes)}
+        return Eval(fails, weight=max(1, execs), nontrivial_count=execs, labels=["fuzz:varint"])
+
     return [
+        Target("atheris_varint_campaign", fuzz_ev, cases=fuzz_cases, exhaustive=False, shard_cases=False, quick=10**9, thorough=10**9, time_thorough=3000),
         Target("varint_exhaustive_range", eval_range(bp), cases=range_cases, exhaustive=True,
                rule=f"every integer in [{lo}, {hi})", time_quick=300, time_thorough=1200),
         Target("varint_boundary_windows", eval_vals(bp), cases=window_cases, exhaustive=True,
